@@ -21,7 +21,8 @@ REQUIRED_MONITORS = ('shadow_comparison', 'rigid_operation')
 REQUIRED_CLASSES = ('obj:AtomGro', 'obj:Residue', 'obj:Molecule', 'obj:Molecule-multi-residue', 'src:system', 'src:alignment',
                     'src:shipped', 'op:copy', 'op:deep_copy', 'op:move', 'op:move_to', 'op:rotate', 'op:set-positions',
                     'op:set-velocities', 'op:set-velocities-none', 'op:set-ids', 'op:set-resids', 'op:view-index',
-                    'op:view-iterate', 'op:view-inplace', 'op:shared-array', 'op:rename-deep-copy', 'op:atoms-property')
+                    'op:view-iterate', 'op:view-inplace', 'op:shared-array', 'op:rename-deep-copy', 'op:atoms-property',
+                    'assign:int64', 'assign:strided', 'assign:fortran', 'assign:whole-residue-through-views')
 RULE = ('operation histories (<= 40 operations over <= 8 live objects) drawn from {copy, deep_copy, move, move_to, rotate, '
         'set positions/velocities(None)/atom numbers/residue numbers, view assignment by index and by iteration, the same '
         'ndarray handed to two setters, rename on deep copies, mutate what the atoms property returned}. Non-trivial: the '
@@ -151,6 +152,25 @@ def memory_molecule(rng, multi):
 
 # ---------------------------------------------------------------------------
 
+def represent(ctx, rng, arr, force=None):
+    """The same coordinates in one of the array forms a caller may hand to a setter: float64 (usual), integer arrays
+    (integer-valued coordinates, as in `atom.position = np.array((2, 3, 5))`), non-contiguous views.
+    Returns (exact float64 value, array to assign)."""
+    kind = force or ['float64', 'float64', 'float64', 'int64', 'int32', 'strided', 'fortran'][int(rng.integers(0, 7))]
+    if kind in ('int64', 'int32'):
+        val = np.rint(arr * 2).astype(kind)
+    elif kind == 'strided':
+        big = np.zeros(arr.shape[:-1] + (6,))
+        big[..., ::2] = arr
+        val = big[..., ::2]
+    elif kind == 'fortran':
+        val = np.asfortranarray(arr.copy())
+    else:
+        val = arr.copy()
+    ctx.hit('assign:' + kind)
+    return np.array(val, dtype=float), val
+
+
 def run_case(ctx, case):
     from gaddlemaps import Alignment
     i = case['i']
@@ -252,11 +272,11 @@ def run_case(ctx, case):
                 tol = 1e-9
                 ctx.monitor('rigid_operation')
             elif op == 'set-positions':
-                new = rng.normal(size=(n, 3)) * 5
+                new, val = represent(ctx, rng, rng.normal(size=(n, 3)) * 5)
                 if k == 'AtomGro':
-                    obj.position = new[0].copy()
+                    obj.position = val[0]
                 else:
-                    obj.atoms_positions = new.copy()
+                    obj.atoms_positions = val
                 sh['pos'] = new
             elif op in ('set-velocities', 'set-velocities-none'):
                 new = None if op.endswith('none') else rng.normal(size=(n, 3))
@@ -292,9 +312,19 @@ def run_case(ctx, case):
                 if k == 'AtomGro':
                     continue
                 j = int(rng.integers(0, n))
-                v = rng.normal(size=3) * 3
-                obj[j].position = v.copy()
-                sh['pos'][j] = v
+                if rng.random() < 0.25 and k == 'Molecule' and len(obj.residues) > 1:
+                    # every atom of one residue (often the first) re-assigned through views, one dtype for all
+                    res = 0 if rng.random() < 0.6 else int(rng.integers(0, len(obj.residues)))
+                    start = sum(len(r) for r in obj.residues[:res])
+                    idx = list(range(start, start + len(obj.residues[res])))
+                    force = ['int64', 'int32'][int(rng.integers(0, 2))]
+                    ctx.hit('assign:whole-residue-through-views')
+                else:
+                    idx, force = [j], None
+                for j in idx:
+                    v, val = represent(ctx, rng, rng.normal(size=3) * 3, force)
+                    obj[j].position = val
+                    sh['pos'][j] = v
                 if rng.random() < 0.5:
                     aid = int(rng.integers(1, 90000))
                     obj[j].atomid = aid
@@ -305,6 +335,8 @@ def run_case(ctx, case):
                 # array that the history itself handed to a second object.
                 if k == 'AtomGro' or e.get('holds_shared_array'):
                     continue
+                if any(np.asarray(a.position).dtype != np.float64 for a in obj):
+                    continue                      # (float += on an integer array is refused by numpy itself)
                 j = int(rng.integers(0, n))
                 v = rng.normal(size=3)
                 view = obj[j]
@@ -358,6 +390,7 @@ def run_case(ctx, case):
             break
         if op in ('move', 'move_to', 'rotate', 'set-positions'):
             e['holds_shared_array'] = False
+
         history.append((op, t))
         kinds.append(op)
         ctx.hit('op:' + op)
@@ -367,7 +400,13 @@ def run_case(ctx, case):
         ctx.monitor('shadow_comparison')
         failed = False
         for q, x in enumerate(objs):
-            bad = differs(observe(x['obj']), x['shadow'], tol if q == t or op == 'shared-array' else 0.0, names=x['deep'])
+            obs = observe(x['obj'])
+            loose = tol if q == t or op == 'shared-array' else 0.0
+            bad = differs(obs, x['shadow'], loose, names=x['deep'])
+            if not bad and loose:
+                # computed coordinates were judged to the tolerance; from here on the object must keep exactly these bits
+                x['shadow']['pos'] = obs['pos']
+                x['shadow']['vel'] = obs['vel']
             if bad:
                 who = 'target' if q == t else 'bystander'
                 ctx.violation(f'{who}-{bad}-wrong-after:{op}',
